@@ -32,6 +32,9 @@ type cacheStack struct {
 func cacheNew(t []string) *cacheStack {
 	b, l := afero.NewMemMapFs(), afero.NewMemMapFs()
 	d := time.Duration(atoi64(t[2])) * time.Second
+	if t[1] == "cache-mem-ms" { // a cache duration that is not a whole number of seconds
+		d = time.Duration(atoi64(t[2])) * time.Millisecond
+	}
 	if t[1] == "cache-robase" {
 		// the base refuses every mutation (the configuration the type's documentation recommends): a call
 		// that fails in the base must leave the cache as it was
@@ -300,6 +303,20 @@ func c10Exhaustive(tier string) []corr.Case {
 				"readthrough " + h(p), "readthrough " + h(p), "snapshot"}
 			cases = append(cases, corr.Case{Lines: l})
 		}
+	}
+	// cache durations that are not whole seconds (0.7 s, 1.9 s, 2.5 s): a copy younger than the duration is served, an
+	// older one with a newer base is refreshed — ages are at least 600 ms away from the boundary (the clock is the real one)
+	for _, c := range []struct{ durms, copyAge int }{{700, -100}, {700, -1500}, {1900, -1200}, {1900, -2600}, {2500, -1800}, {2500, -3200}} {
+		old, nw := genBytes(5, 1), genBytes(7, 2)
+		p := c10Files[0]
+		l := []string{fmt.Sprintf("case cache-mem-ms %d", c.durms),
+			"b.mkdirall " + h(filepath.Dir(p)) + " 493", "b.create " + h(p), "h.write 0 " + corr.Hex(old), "h.close 0",
+			fmt.Sprintf("b.chtimesms %s %d", h(p), c.copyAge),
+			"readthrough " + h(p), // miss: the copy is stamped with copyAge
+			"b.openfile " + h(p) + " 514 420", "h.write 1 " + corr.Hex(nw), "h.close 1",
+			fmt.Sprintf("b.chtimesms %s %d", h(p), -50), // the base is newer than the copy
+			"readthrough " + h(p), "readthroughof " + h(p), "snapshot"}
+		cases = append(cases, corr.Case{Lines: l})
 	}
 	// two siblings whose names differ by a temporary-file suffix: caching one must not disturb the cached copy of the other
 	for _, dur := range durs {
